@@ -15,6 +15,8 @@
 # ==============================================================================
 """Canonicalizes continue statements by de-sugaring into a control boolean."""
 
+import ast
+
 from malt.core import converter
 from malt.pyct import anno
 from malt.pyct import qual_names
@@ -52,6 +54,26 @@ class _Block(object):
     self.is_loop_type = False
     self.create_guard_current = False
     self.create_guard_next = False
+
+
+def _has_own_continue(nodes):
+  """Whether a `continue` of the enclosing loop occurs in the statements."""
+  for node in nodes:
+    if isinstance(node, ast.Continue):
+      return True
+    if isinstance(node, (ast.FunctionDef, ast.AsyncFunctionDef, ast.ClassDef)):
+      continue
+    if isinstance(node, (ast.For, ast.AsyncFor, ast.While)):
+      # A continue in the body applies to that loop, one in its else clause to
+      # the enclosing loop.
+      blocks = [node.orelse]
+    else:
+      blocks = [getattr(node, f, None) for f in ('body', 'orelse', 'finalbody')]
+      blocks += [h.body for h in getattr(node, 'handlers', ())]
+    for block in blocks:
+      if isinstance(block, list) and _has_own_continue(block):
+        return True
+  return False
 
 
 class ContinueCanonicalizationTransformer(converter.Base):
@@ -145,8 +167,20 @@ class ContinueCanonicalizationTransformer(converter.Base):
     return node
 
   def visit_Try(self, node):
+    # The else clause only runs if the try block ran to its end; a continue
+    # inside the try block skips it.
+    guard_orelse = bool(node.orelse) and _has_own_continue(node.body)
     node.body = self._visit_non_loop_body(node.body)
     node.orelse = self._visit_non_loop_body(node.orelse)
+    if guard_orelse:
+      template = """
+        if not var_name:
+          orelse
+      """
+      node.orelse = templates.replace(
+          template,
+          var_name=self.state[_Continue].control_var_name,
+          orelse=node.orelse)
     # In Python 3.8 and later continue is allowed in finally blocks
     node.finalbody = self._visit_non_loop_body(node.finalbody)
     node.handlers = self.visit_block(node.handlers)
